@@ -1900,19 +1900,30 @@ func (g Gateway) Uint32SliceDelete(ctx context.Context, in *hydrapb.Uint32SliceD
 				return
 			}
 
-			guardID := treasureObj.StartTreasureGuard(true)
-			defer treasureObj.ReleaseTreasureGuard(guardID)
+			emptied := false
 
-			if err := treasureObj.Uint32SliceDelete(pair.GetValues()); err != nil {
-				errorsWhileDelete = append(errorsWhileDelete, err.Error())
-			}
+			func() {
 
-			treasureObj.Save(guardID)
+				guardID := treasureObj.StartTreasureGuard(true)
+				defer treasureObj.ReleaseTreasureGuard(guardID)
 
-			// check the length of the slice in the treasure
-			// if the length is 0, we can delete the treasure
-			size, err := treasureObj.Uint32SliceSize()
-			if err != nil || size == 0 {
+				if err := treasureObj.Uint32SliceDelete(pair.GetValues()); err != nil {
+					errorsWhileDelete = append(errorsWhileDelete, err.Error())
+				}
+
+				treasureObj.Save(guardID)
+
+				// check the length of the slice in the treasure
+				// if the length is 0, we can delete the treasure
+				// (a treasure that does not hold a slice at all is left alone)
+				size, err := treasureObj.Uint32SliceSize()
+				emptied = err == nil && size == 0
+
+			}()
+
+			// The guard must be released before the delete: DeleteTreasure takes the guard of
+			// the same treasure itself, so deleting while holding it blocked this request forever.
+			if emptied {
 				// delete the treasure
 				if err := swampObj.DeleteTreasure(pair.GetKey(), false); err != nil {
 					errorsWhileDelete = append(errorsWhileDelete, err.Error())
